@@ -518,6 +518,11 @@ def twodspectrum_dictionary(name, dtype):
         
         if isinstance(value, numpy.ndarray):
 
+            if value.shape != (self.xaxis.length, self.yaxis.length):
+                # if the data shape is not consistent, raise Exception
+                raise Exception("Data not consistent "+
+                                "with spectrum axes")
+
             storage = getattr(self, storage_name)
 
             #
@@ -546,11 +551,6 @@ def twodspectrum_dictionary(name, dtype):
                 if self.current_tag in piece.keys():
                     # if the tag exists raise Exception
                     raise Exception("Tag "+self.current_tag+" already exists")
-                        
-                    if value.shape != (self.xaxis.length, self.yaxis.length):
-                        # if the data shape is not consistent, raise Exception
-                        raise Exception("Data not consistent "+
-                                        "with spectrum axes")
 
                 piece[self.current_tag] = value
 
